@@ -9,12 +9,20 @@
  *            fbmode 0: library's own MallocFrameBuffer (pointer recorded, freed by the harness)
  *                   1: harness allocation with canary bands (256 KiB each side)
  *                   2: as 1, but the allocation fails (returns FALSE) for sizes > 8 MiB
+ *   adopt bpp depth be tc rmax gmax bmax rs gs bs
+ *                          the application adopts this pixel format inside its FIRST MallocFrameBuffer callback
+ *                          (the first callback after ServerInit), as viewers do that follow the server's format
+ *   setformat <10 fields>  mid-session: client->format = ..., SetFormatAndEncodings, MallocFrameBuffer
+ *   wait                   WaitForMessage(client, 0) -> "wait <result>" (virtual select: readable = bytes left in the stream)
  *   seg <n1,n2,...>        read() returns at most n_i bytes (cyclic); "0" = everything available
  *   eos eof|eagain|flaky   behaviour at the end of the scripted stream (flaky: EAGAIN three times, then EOF)
  *   z <id> <hexz> <hexplain>  (for the model only; harness prints ok)
  *   init <hex>             append bytes, run rfbInitClient (listenSpecified: no connect())
  *   feed <hex>             append bytes to the server stream (no library call)
  *   feedrep <hex> <n>      append n repetitions of the bytes (keeps scripts with 10^5 entries short)
+ *   play <hs> <m1> <m2>..  PLAY-FILE transport: the handshake bytes and the server messages are written to a vncrec
+ *                          log (magic, handshake, then a timestamp record + bytes per message); the library reads it
+ *                          through its own -play path (serverPort -1); use `init -` / `msg -` afterwards
  *   msg <hex>              append bytes, run HandleRFBServerMessage once
  *   drain                  run HandleRFBServerMessage until the stream is empty or FALSE (<=10000 calls)
  *   fill x y w h c | copy sx sy w h dx dy | bitmap x y w h <hex>   framebuffer primitives
@@ -66,6 +74,8 @@ static rfbBool (*orig_malloc_fb)(rfbClient *) = NULL;
 static int fb_allocs = 0;
 static int dead = 0;               /* library returned FALSE / client freed */
 static char *encstr = NULL;
+static rfbPixelFormat adopt_fmt; static int adopt_state = 0;   /* 1 = pending */
+static int play_mode = 0; static char play_path[64];
 
 static ssize_t (*real_read)(int, void *, size_t);
 static ssize_t (*real_write)(int, const void *, size_t);
@@ -153,7 +163,9 @@ static int canaries_ok(void) {
   return 1;
 }
 static rfbBool my_malloc_fb(rfbClient *c) {
-  uint64_t sz = (uint64_t)c->width * c->height * (c->format.bitsPerPixel / 8);
+  uint64_t sz;
+  if (adopt_state == 1) { c->format = adopt_fmt; adopt_state = 2; }
+  sz = (uint64_t)c->width * c->height * (c->format.bitsPerPixel / 8);
   fb_allocs++;
   cbf("malloc:%d:%d", c->width, c->height);
   if (fb_mode == 0) {
@@ -281,6 +293,28 @@ int main(void) {
       cl->HandleCursorPos = cb_curpos; cl->HandleKeyboardLedState = cb_led;
       cl->GetPassword = cb_password;        /* never read a password from stdin (the script) */
       puts("ok");
+    } else if (!strcmp(tok[0], "adopt") && n == 11 && cl && !dead && adopt_state == 0) {
+      memset(&adopt_fmt, 0, sizeof adopt_fmt);
+      adopt_fmt.bitsPerPixel = atoi(tok[1]); adopt_fmt.depth = atoi(tok[2]); adopt_fmt.bigEndian = atoi(tok[3]);
+      adopt_fmt.trueColour = atoi(tok[4]); adopt_fmt.redMax = atoi(tok[5]); adopt_fmt.greenMax = atoi(tok[6]);
+      adopt_fmt.blueMax = atoi(tok[7]); adopt_fmt.redShift = atoi(tok[8]); adopt_fmt.greenShift = atoi(tok[9]);
+      adopt_fmt.blueShift = atoi(tok[10]);
+      adopt_state = 1;
+      puts("ok");
+    } else if (!strcmp(tok[0], "setformat") && n == 11 && cl && !dead) {
+      rfbBool r;
+      cl->format.bitsPerPixel = atoi(tok[1]); cl->format.depth = atoi(tok[2]); cl->format.bigEndian = atoi(tok[3]);
+      cl->format.trueColour = atoi(tok[4]); cl->format.redMax = atoi(tok[5]); cl->format.greenMax = atoi(tok[6]);
+      cl->format.blueMax = atoi(tok[7]); cl->format.redShift = atoi(tok[8]); cl->format.greenShift = atoi(tok[9]);
+      cl->format.blueShift = atoi(tok[10]);
+      guard_on(); r = SetFormatAndEncodings(cl); guard_off();
+      if (r) r = cl->MallocFrameBuffer(cl);
+      if (!r) dead = 1;
+      put_state("setformat", r);
+    } else if (!strcmp(tok[0], "wait") && n == 1 && cl && !dead) {
+      int r;
+      guard_on(); r = WaitForMessage(cl, 0); guard_off();
+      printf("wait %d\n", r);
     } else if (!strcmp(tok[0], "seg") && n == 2) {
       char *p = tok[1]; nseg = 0; segi = 0; segleft = 0;
       while (*p && nseg < 64) { long v = strtol(p, &p, 10); if (v > 0) segs[nseg++] = v; if (*p == ',') p++; else break; }
@@ -297,6 +331,7 @@ int main(void) {
       if (!p) { puts("bad-op"); continue; }
       vh_buf_add(&srvb, p, (size_t)k); free(p);
       guard_on(); r = rfbInitClient(cl, NULL, NULL); guard_off();
+      if (play_mode && play_path[0]) { unlink(play_path); play_path[0] = 0; }
       if (!r) { cl = NULL; dead = 1; cfd = -1; if (fb_base) { free(fb_base); fb_base = NULL; }
                 puts("init F"); }
       else {
@@ -316,6 +351,23 @@ int main(void) {
       if (!p || reps < 0 || reps > 4000000 || k * reps > (64L << 20)) { free(p); puts("bad-op"); continue; }
       for (i = 0; i < reps; i++) vh_buf_add(&srvb, p, (size_t)k);
       free(p);
+      puts("ok");
+    } else if (!strcmp(tok[0], "play") && n >= 2 && cl && !dead && !play_mode) {
+      char path[64] = "/tmp/c07playXXXXXX"; int fd = mkstemp(path), i, bad = 0; FILE *f;
+      static const unsigned char tv0[sizeof(struct timeval)];
+      if (fd < 0 || !(f = fdopen(fd, "wb"))) { puts("bad-op"); continue; }
+      fwrite("vncLog0.0", 1, 9, f);
+      for (i = 1; i < n; i++) {
+        long k; unsigned char *p = hexarg(tok[i], &k);
+        if (!p) { bad = 1; break; }
+        if (i > 1) fwrite(tv0, 1, sizeof tv0, f);          /* HandleRFBServerMessage reads a timestamp first */
+        fwrite(p, 1, (size_t)k, f); free(p);
+      }
+      fclose(f);
+      if (bad) { unlink(path); puts("bad-op"); continue; }
+      strcpy(play_path, path);
+      free(cl->serverHost); cl->serverHost = strdup(path); cl->serverPort = -1; cl->listenSpecified = FALSE;
+      close(cl->sock); cl->sock = RFB_INVALID_SOCKET; cfd = -1; play_mode = 1;
       puts("ok");
     } else if (!strcmp(tok[0], "msg") && n == 2 && cl && !dead) {
       long k; unsigned char *p = hexarg(tok[1], &k); rfbBool r;
@@ -387,6 +439,7 @@ int main(void) {
       if (cl) {
         unsigned char *own = (fb_mode == 0) ? cl->frameBuffer : NULL;
         int fd = peerfd;
+        if (play_mode && cl->vncRec && cl->vncRec->file) { fclose(cl->vncRec->file); cl->vncRec->file = NULL; }
         guard_on(); rfbClientCleanup(cl); guard_off();
         cl = NULL; cfd = -1;
         if (own) free(own); else if (fb_base) free(fb_base);
